@@ -196,7 +196,7 @@ def check_c08_generator(res, cases):
             if exp is None or r["nth"] != 0 or r.get("class") != "tokens" or r.get("kind") != "mod":
                 continue
             v = r.get("C08")
-            if v and v[0] == "1" and v[1] == "0":
+            if v and v[1] == "0":
                 continue        # the output's shape was not understood: that is a broken tie (reported as such), not a wrong method list
             evals += 1
             if r.get("methods") != exp:
